@@ -103,8 +103,14 @@ def run(repo: Repo, rep: Report, tier: str) -> None:
     fqd = "dul.DULServiceProvider._read_pdu_data"
     recvs = sorted([c for c in walk_no_nested(rd) if isinstance(c, ast.Call) and dotted(c.func) == "self.socket.recv"], key=lambda c: c.lineno)
     rep.check(len(recvs) == 2 and norm(recvs[0].args[0]) == "6" and norm(recvs[1].args[0]) == "pdu_length", "header-body", fqd, f"recv({', '.join(norm(c.args[0]) for c in recvs)})", "first exactly the 6-byte header, then exactly pdu_length bytes", mod=dul, node=rd)
-    hdr = [s for s in walk_no_nested(rd) if isinstance(s, ast.Assign) and "struct.unpack" in norm(s.value)]
-    rep.check(len(hdr) == 1 and norm(hdr[0].value) == "struct.unpack('>BBL', bytestream)" and norm(hdr[0].targets[0]).strip("()") == "pdu_type, _, pdu_length", "header-body", fqd, hdr[0] if hdr else "unpack", "length is the big-endian 32-bit field at offset 2", mod=dul, node=rd)
+    fields = header_fields(rd)
+    for name, want in (("pdu_type", (0, 1, "big")), ("pdu_length", (2, 4, "big"))):
+        got = fields.get(name)
+        if got is None:
+            rep.defer(f"{fqd}: how {name} is taken from the 6 header bytes was not recognised")
+            continue
+        ok_f = got[0][:2] == want[:2] and (want[1] == 1 or got[0][2] == want[2]) and got[1] == "bytestream"
+        rep.check(ok_f, "header-body", fqd, f"{name} <- bytes [{got[0][0]}:{got[0][0] + got[0][1]}] {got[0][2]}-endian of {got[1]}", f"{name} is the {'big-endian 32-bit field at offset 2' if name == 'pdu_length' else 'first byte'} of the header (PS3.8 9.3.1): any other slice mis-frames the stream (e.g. a dropped top byte wraps lengths >= 16 MiB)", mod=dul, node=got[2])
     # bytes are accumulated in arrival order into one buffer
     acc = [norm(s) for s in walk_no_nested(rd) if isinstance(s, ast.stmt)]
     rep.check("bytestream.extend(self.socket.recv(6))" in acc and "bytestream += self.socket.recv(pdu_length)" in acc and "bytestream = bytearray()" in acc, "header-body", fqd, "header and body appended to one fresh buffer", "the decoder must see header followed by body, nothing else", mod=dul, node=rd)
@@ -132,8 +138,7 @@ def run(repo: Repo, rep: Report, tier: str) -> None:
         tr_ = enclosing(c, (ast.Try,))
         ok = tr_ is not None and any("OSError" in (norm(h.type) if h.type else "") for h in tr_.handlers)
         rep.check(ok, "short-is-closed", fqd, enclosing(c, (ast.stmt,)), "socket reads must be inside try/except OSError -> Evt17", mod=dul, node=c)
-    up = enclosing(hdr[0], (ast.Try,)) if hdr else None
-    rep.check(up is not None and any("struct.error" in (norm(h.type) if h.type else "") for h in up.handlers), "short-is-closed", fqd, "header unpack inside try/except struct.error", "fewer than 6 header bytes (connection closed) must be Evt17", mod=dul, node=rd)
+    check_header_guard(repo, rep, "short-is-closed")
 
     # ---- one per call --------------------------------------------------------------------
     def transfer2(n, st):
@@ -199,26 +204,16 @@ def check_gap_tolerance(repo: Repo, rep: Report) -> None:
             return "connection"
         return f"other:{t}"
 
-    # initial class: what _create_socket leaves on the socket
-    cs = repo.func("transport", "AssociationSocket._create_socket")
-    init_calls = [c for c in walk_no_nested(cs) if isinstance(c, ast.Call) and isinstance(c.func, ast.Attribute) and c.func.attr == "settimeout"]
-    init = classify(init_calls[-1].args[0]) if init_calls else "none"
+    from ..sock_model import ConnectModel
+    cm = ConnectModel(repo)
+    cfg, init, init_calls, cs = cm.cfg, cm.init, cm.init_calls, repo.func("transport", "AssociationSocket._create_socket")
     rep.check(init in ("none", "network"), "gap-tolerant", "transport.AssociationSocket._create_socket", init_calls[-1] if init_calls else "no settimeout", f"a new socket starts with timeout class '{init}'", mod=tr, node=cs)
-
-    def transfer(n, st):
-        if n.kind == "stmt":
-            for c in calls_at(n):
-                if isinstance(c.func, ast.Attribute) and c.func.attr == "settimeout" and norm(c.func.value) == "self.socket" and c.args:
-                    other = {l for _, l in n.succ if l != "exc"}
-                    return [(classify(c.args[0]), other), (st, {"exc"})]
-        return [(st, {l for _, l in n.succ})]
-
-    ins, pred = typestate(cfg, init, transfer)
-    marks = [n for n in cfg.nodes if n.kind == "stmt" and norm(n.ast) == "self._is_connected = True"]
+    marks = cm.marks
     rep.need(len(marks) == 1, f"{fq}: `self._is_connected = True` not found")
-    states = sorted(ins.get(marks[0].id, ()))
+    states = cm.classes(marks[0])
     bad = [s for s in states if s not in ("none", "network")]
-    rep.check(not bad and bool(states), "gap-tolerant", fq, f"socket timeout at the point the connection is marked open: {states}", f"the connected socket keeps timeout class {bad}: a PDU arriving in two segments with a gap longer than that timeout makes recv() raise, which _read_pdu_data reports as a closed connection (Evt17) although the peer is alive and within the network timeout", mod=tr, node=marks[0].ast, path=witness(cfg, pred, marks[0], bad[0]) if bad else None)
+    bad_state = next((s for s in cm.states(marks[0]) if s[0][0] in bad), None)
+    rep.check(not bad and bool(states), "gap-tolerant", fq, f"socket timeout at the point the connection is marked open: {states}", f"the connected socket keeps timeout class {bad}: a PDU arriving in two segments with a gap longer than that timeout makes recv() raise, which _read_pdu_data reports as a closed connection (Evt17) although the peer is alive and within the network timeout", mod=tr, node=marks[0].ast, path=witness(cfg, cm.pred, marks[0], bad_state) if bad_state else None)
     # nobody else puts a timeout on an association socket (accepted sockets stay blocking)
     n_other = 0
     for mname, m in sorted(repo.modules.items()):
@@ -276,3 +271,127 @@ def check_ready_probe(repo: Repo, rep: Report, rule: str) -> None:
             early = [i for i in walk_no_nested(fn) if isinstance(i, ast.If) and norm(i.test) in ("ready", "bool(ready)") and i.lineno < r.lineno and i.body and isinstance(i.body[-1], ast.Return) and isinstance(i.body[-1].value, ast.Constant) and i.body[-1].value.value is True]
             okr = bool(early)
         rep.check(okr, rule, fq, r if r is not None else "return bool(ready) or bool(pending)", "buffered TLS data must make the socket ready in addition to, not instead of, select()", mod=tr, node=c)
+
+
+def check_header_guard(repo: Repo, rep: Report, rule: str) -> None:
+    """struct.unpack('>BBL', <header>) raises struct.error unless exactly 6 bytes were read. A peer
+    (or the network) can end the stream 1-5 bytes into a header, so the unpack must either sit in a
+    try whose handler for struct.error queues Evt17 and returns, or be dominated by a test of
+    len(<header>) against 6 whose short branch does. Otherwise the exception escapes to the reactor's
+    catch-all: no Evt17, no AA-4/AA-5, no abort indication."""
+    dul = repo.mod("dul")
+    rd = repo.func("dul", "DULServiceProvider._read_pdu_data")
+    fqd = "dul.DULServiceProvider._read_pdu_data"
+    fields = header_fields(rd)
+    sites = []
+    for name in ("pdu_type", "pdu_length"):
+        if name in fields and fields[name][2] not in [x[0] for x in sites]:
+            sites.append((fields[name][2], fields[name][1]))
+    if not sites:
+        rep.defer(f"{fqd}: header parse not found")
+        return
+
+    def evt17_return(stmts):
+        body = [norm(s) for s in stmts if not norm(s).startswith("LOGGER")]
+        return body == ["self.event_queue.put('Evt17')", "return"]
+
+    for c, buf in sites:
+        ok, how = False, ""
+        raises_struct = any(isinstance(x, ast.Call) and (dotted(x.func) or "").endswith("unpack") for x in ast.walk(c))
+        t = enclosing(c, (ast.Try,)) if raises_struct else None
+        while t is not None and not ok:
+            in_body = any(c in list(ast.walk(s_)) for s_ in t.body)
+            for h in t.handlers if in_body else []:
+                types = norm(h.type) if h.type else "BaseException"
+                if any(x in types for x in ("struct.error", "Exception", "BaseException")):
+                    if evt17_return(h.body):
+                        ok, how = True, f"inside try / except {types} -> Evt17, return"
+                    break
+            t = enclosing(t, (ast.Try,))
+        if not ok:
+            cfg = CFG(rd, body=body_nodoc(rd), local_exc_only=True)
+            site = [n for n in cfg.nodes if n.kind == "stmt" and n.ast is c]
+            for n in cfg.nodes:
+                if n.kind != "test" or not isinstance(n.ast, ast.If):
+                    continue
+                tt = norm(n.ast.test).replace(" ", "")
+                if tt in (f"len({buf})!=6", f"len({buf})<6") and site and cfg.dominates(n, site[0]) and evt17_return(n.ast.body):
+                    f_succ = [m for m, l in n.succ if l == "true"]
+                    if f_succ and site[0].id not in cfg.reachable(f_succ[0]):
+                        ok, how = True, f"dominated by `if {norm(n.ast.test)}` -> Evt17, return"
+        if ok:
+            rep.ok(rule, f"{fqd} :: {norm(c)}", how)
+        else:
+            rep.fail(rule, fqd, c, f"`{norm(c)}` takes the PDU type/length from the header although fewer than 6 bytes may have arrived (stream ended inside a PDU header) and nothing turns that case into Evt17: struct.error / IndexError escapes the state machine, or a garbage length is used - no connection-closed handling, no abort indication", mod=dul, node=c)
+
+
+_STRUCT_W = {"B": 1, "b": 1, "H": 2, "h": 2, "L": 4, "l": 4, "I": 4, "i": 4, "Q": 8, "q": 8, "x": 1}
+
+
+def header_fields(rd: ast.AST) -> dict:
+    """{name: ((offset, width, endian), buffer text, node)} for the local names assigned from the header bytes:
+    struct.unpack(fmt, buf) destructuring, struct.unpack(fmt, buf[a:b])[0], int.from_bytes(buf[a:b], 'big'), buf[i]"""
+    out = {}
+    for st in walk_no_nested(rd):
+        if not isinstance(st, ast.Assign) or len(st.targets) != 1:
+            continue
+        tgt, v = st.targets[0], strip_cast(st.value)
+        # struct.unpack(fmt, buf) -> tuple
+        if isinstance(v, ast.Call) and (dotted(v.func) or "").endswith("unpack") and len(v.args) == 2 and isinstance(v.args[0], ast.Constant) and isinstance(v.args[0].value, str) and isinstance(tgt, ast.Tuple):
+            fmt = v.args[0].value
+            endian = "big" if fmt[:1] in (">", "!") else "little" if fmt[:1] == "<" else "native"
+            codes = [c for c in fmt.lstrip("<>!=@") if c in _STRUCT_W]
+            off = 0
+            vals = []
+            for c in codes:
+                if c != "x":
+                    vals.append((off, _STRUCT_W[c], endian))
+                off += _STRUCT_W[c]
+            base, lo = _slice_base(v.args[1])
+            if len(vals) == len(tgt.elts):
+                for e, (o, w, en) in zip(tgt.elts, vals):
+                    if isinstance(e, ast.Name):
+                        out[e.id] = ((o + lo, w, en), base, st)
+            continue
+        if not isinstance(tgt, ast.Name):
+            continue
+        # struct.unpack(fmt, buf[a:b])[0]
+        if isinstance(v, ast.Subscript) and isinstance(v.value, ast.Call) and (dotted(v.value.func) or "").endswith("unpack") and len(v.value.args) == 2 and isinstance(v.value.args[0], ast.Constant) and norm(v.slice) == "0":
+            fmt = str(v.value.args[0].value)
+            endian = "big" if fmt[:1] in (">", "!") else "little" if fmt[:1] == "<" else "native"
+            codes = [c for c in fmt.lstrip("<>!=@") if c in _STRUCT_W]
+            base, lo = _slice_base(v.value.args[1])
+            off = 0
+            for c in codes:
+                if c != "x":
+                    out[tgt.id] = ((off + lo, _STRUCT_W[c], endian), base, st)
+                    break
+                off += 1
+            continue
+        # int.from_bytes(buf[a:b], "big")
+        if isinstance(v, ast.Call) and norm(v.func) == "int.from_bytes" and v.args:
+            base, lo, hi = _slice_base(v.args[0], want_hi=True)
+            order = v.args[1] if len(v.args) > 1 else next((k.value for k in v.keywords if k.arg == "byteorder"), None)
+            en = order.value if isinstance(order, ast.Constant) else "big" if order is None else "?"
+            if hi is not None:
+                out[tgt.id] = ((lo, hi - lo, en), base, st)
+            continue
+        # buf[i]
+        if isinstance(v, ast.Subscript) and isinstance(v.slice, ast.Constant) and isinstance(v.slice.value, int) and isinstance(v.value, ast.Name):
+            out[tgt.id] = ((v.slice.value, 1, "big"), v.value.id, st)
+    return out
+
+
+def _slice_base(e: ast.AST, want_hi: bool = False):
+    e = strip_cast(e)
+    if isinstance(e, ast.Call) and norm(e.func) in ("bytes", "bytearray", "memoryview") and len(e.args) == 1:
+        e = e.args[0]
+    lo, hi = 0, None
+    if isinstance(e, ast.Subscript) and isinstance(e.slice, ast.Slice):
+        sl = e.slice
+        lo = sl.lower.value if isinstance(sl.lower, ast.Constant) else 0 if sl.lower is None else None
+        hi = sl.upper.value if isinstance(sl.upper, ast.Constant) else None
+        e = e.value
+        if lo is None:
+            lo = -1
+    return (norm(e), lo, hi) if want_hi else (norm(e), lo)
